@@ -49,7 +49,7 @@ class SwapModel:
                 role = "price"
             elif any(is_field(t, "tick_current_index") for t in terms):
                 role = "tick"
-            elif any(is_field(t, "liquidity") for t in terms) and any(_calls_in(t, "calculate_update") for t in terms):
+            elif any(is_field(t, "liquidity") for t in terms) and any(_calls_in(t, "add_liquidity_delta") for t in terms):
                 role = "liquidity"
             elif any(is_field(t, "fee_growth_global_a") or is_field(t, "fee_growth_global_b") for l_ in terms for t in leaves(l_)) and any(_calls_in(t, "calculate_fees") for t in terms):
                 role = "fee_growth_input"
